@@ -123,6 +123,20 @@ def replayed_terminal(w):
     return n
 
 
+def response_page_fetches(w):
+    """API calls of the fault-free run that fetched a further page of a checkpoint RESPONSE (a get-state call made by the
+    background thread after a checkpoint call of the same invocation) - a rare position for an API error."""
+    seen_ckpt = set()
+    out = []
+    for e in w.trace:
+        if e["k"] == "api-begin":
+            if e["op"] == "checkpoint":
+                seen_ckpt.add(e["i"])
+            elif e["op"] == "get" and e["i"] in seen_ckpt:
+                out.append(e["call"])
+    return out
+
+
 def add_flaky_serdes(cfg, rng, p):
     """User-supplied serialisers are user code too: with probability p, 1-3 step / wait_for_condition / child / callback
     statements get a custom SerDes (around an 'external store') whose k-th serialize or deserialize call fails."""
@@ -314,6 +328,7 @@ class C04(Check):
             cfg["latency"] = rng.choice([[0.01, 0.3], [0.05, 1.5], [0.5, 4.0]])
         if cfg["sched"].get("policy") == "walk" and rng.random() < 0.5:
             cfg["sched"]["stall_p"] = rng.choice([0.005, 0.02, 0.05])
+        add_flaky_serdes(cfg, rng, 0.2)  # a recorded outcome that cannot be decoded must not make the function run again
 
     def fault_plans(self, rng, st, prof, tier, cfg, w):
         plans = []
@@ -380,6 +395,8 @@ class C06(Check):
         if len(plans) > cap:
             rng.shuffle(plans)
             plans = plans[:cap]
+        for k in response_page_fetches(w)[:2]:
+            plans.append([{"kind": "apierr", "call": k, "err": rng.choice(classes), "applied": False}])
         return plans
 
     def oracle(self, ix, cfg, golden):
@@ -399,6 +416,8 @@ class C06(Check):
                     r["failed-empty-checkpoint"] = 1
                 if b and b["op"] == "get":
                     r["failed-get-state"] = 1
+                    if any(x["op"] == "checkpoint" and x["i"] == b["i"] and x["s"] < b["s"] for x in ix.kinds["api-begin"]):
+                        r["failed-response-page-fetch"] = 1
                 # was some branch alive?
                 if any(x["i"] == e["i"] and x.get("bkind") == "branch" for x in ix.kinds["body-enter"]):
                     r["failure-with-branches"] = 1
@@ -419,7 +438,7 @@ class C07(Check):
             "faults stop; non-trivial iff >=1 PENDING return")
     base_profile = {"weights": {"wait": 4, "callback": 2, "wfc": 2, "invoke": 2, "wfcond": 2, "parallel": 4, "map": 2, "step": 4},
                     "fault_kinds": ["crash-api", "crash-fn", "crash-step", "spurious", "spurious", "clock-jump", "clock-jump"],
-                    "blocks": [0, 0, 0.05, 0.5, 2.0, 8.0], "try_p": 0.4, "cfg_p": 0.8, "fail_p": 0.4}
+                    "blocks": [0, 0, 0.05, 0.5, 2.0, 8.0], "try_p": 0.4, "cfg_p": 0.8, "fail_p": 0.4, "amo_p": 0.3}
 
     @staticmethod
     def invocation_bound(cfg):
@@ -483,8 +502,8 @@ class C08(Check):
     rule = ("nested child/map/parallel programs; the same program is run under several schedules and crash plans and all update "
             "streams are checked together: path->Id is a function, injective, ParentId = Id(enclosing context); non-trivial iff "
             "depth >=2 with >=2 sibling branches observed in >=2 invocations")
-    base_profile = {"weights": {"child": 4, "parallel": 4, "map": 3, "step": 5, "wait": 2, "wfc": 1, "callback": 1},
-                    "max_depth": 3, "max_ops": 22, "fail_p": 0.15}
+    base_profile = {"weights": {"child": 4, "parallel": 4, "map": 3, "step": 5, "wait": 3, "wfc": 1, "callback": 1},
+                    "max_depth": 3, "max_ops": 22, "fail_p": 0.15, "blocks": [0, 0, 0.05, 0.5, 2.0, 4.0], "lines_p": 0.5}
     quick_cases = 300
 
     def golden_info(self, w, ix):
@@ -517,10 +536,16 @@ class C08(Check):
             r["branches-out-of-index-order"] = 1
         if any(oracles.ctx_pos(e["pos"])[0] == "branch" and "/b" in oracles.ctx_pos(e["pos"])[1] for e in ix.kinds["call-begin"]):
             r["nested-branch-depth-2"] = 1
+        seen = set()
+        for e in ix.kinds["body-enter"]:
+            if e.get("bkind") == "branch":
+                if (e["i"], e["pos"]) in seen:
+                    r["branch-resubmitted-in-process"] = 1  # the identifiers of a branch are derived again by the timer thread
+                seen.add((e["i"], e["pos"]))
         return r
 
     def required_reach(self, tier):
-        return ["branches-out-of-index-order", "nested-branch-depth-2"]
+        return ["branches-out-of-index-order", "nested-branch-depth-2", "branch-resubmitted-in-process"]
 
 
 class C10(Check):
@@ -1353,6 +1378,8 @@ class C18(Check):
             cfg["stop_on_raise"] = True
         if rng.random() < 0.5:
             cfg["limits"] = {"resp": rng.choice([200, 2000]), "ckpt": 256 * 1024}
+        if rng.random() < 0.3:
+            cfg["resp_page"] = rng.choice([1, 1, 2])  # checkpoint responses continue on further pages
         add_flaky_serdes(cfg, rng, 0.15)
         return cfg
 
@@ -1364,6 +1391,8 @@ class C18(Check):
         rng.shuffle(plans)
         n = 5 if tier == "quick" else 12
         plans = plans[:n]
+        for k in response_page_fetches(w)[:2]:
+            plans.append([{"kind": "apierr", "call": k, "err": rng.choice(classes), "applied": False}])
         prof2 = dict(prof, fault_kinds=["crash-api", "crash-fn"])
         plans.append(gen_fault_plan(rng, st, prof2))
         return [p for p in plans if p]
@@ -1388,6 +1417,12 @@ class C18(Check):
                 r["non-serialisable-return"] = 1
         if any(e["type"] == "EXECUTION" for e in ix.kinds["applied"]):
             r["large-result-checkpoint"] = 1
+        for e in ix.kinds["api-end"]:
+            if not e.get("ok") and e.get("err"):
+                b = next((b for b in ix.kinds["api-begin"] if b["call"] == e["call"]), None)
+                if b and b["op"] == "get" and any(x["op"] == "checkpoint" and x["i"] == b["i"] and x["s"] < b["s"]
+                                                  for x in ix.kinds["api-begin"]):
+                    r["failed-response-page-fetch"] = 1
         return r
 
     def required_reach(self, tier):
